@@ -58,6 +58,42 @@ def jobs_simple(prop, profile="general", matrix=None):
     return f
 
 
+def jobs_c09(tier, seed):
+    n = size(tier, 12_000, 120_000)
+    return [
+        rnd("pace", "C09", "dbg", n, profile="pace", length=200, extra=["--pacing", 3]),
+        rnd("pace", "C09", "rel", n, profile="pace", length=200, extra=["--pacing", 3]),
+        rnd("pace-default", "C09", "dbg", n // 4, profile="pace", length=200, extra=["--pacing", 1]),
+        rnd("pace-stw", "C09", "dbg", n // 4, profile="pace", length=200, extra=["--pacing", 2]),
+        rnd("random", "C09", "dbg", n * 5),
+        rnd("random", "C09", "rel", n * 5),
+    ]
+
+
+def jobs_c11(tier, seed):
+    n = size(tier, 100_000, 1_000_000)
+    m = size(tier, 640, 6400)
+    return [
+        dict(name="fault-enum", bin="gcmon", flavour="dbg", args=["faultenum", "--prop", "C11", "--count", m]),
+        dict(name="fault-enum", bin="gcmon", flavour="rel", args=["faultenum", "--prop", "C11", "--count", m]),
+        dict(name="fault-enum", bin="gcmon", flavour="asan", args=["faultenum", "--prop", "C11", "--count", m // 4]),
+        rnd("random-faults", "C11", "dbg", n, extra=["--faults"]),
+        rnd("random-faults", "C11", "rel", n, extra=["--faults"]),
+        rnd("random-faults", "C11", "asan", n // 8, extra=["--faults"]),
+    ]
+
+
+def jobs_c20(tier, seed):
+    n = size(tier, 60_000, 600_000)
+    return [
+        rnd("multi2", "C20", "dbg", n, profile="multi", arenas=2),
+        rnd("multi3", "C20", "dbg", n // 2, profile="multi", arenas=3),
+        rnd("multi2", "C20", "rel", n, profile="multi", arenas=2),
+        rnd("multi2", "C20", "asan", n // 8, profile="multi", arenas=2),
+        rnd("multi2-roots", "C20", "dbg", n // 2, profile="roots", arenas=2),
+    ]
+
+
 COMMON_ASSUME = [
     "the shadow model mirrors every mutator op it issues (validated by lock-step traversal after every callback)",
     "destructor and release events are observed at the Drop / global-allocator boundary, not inside the collector",
@@ -127,6 +163,13 @@ CHECKS = {
         floors={"phase_contract_checks": 100_000},
         assumptions=COMMON_ASSUME,
     ),
+    "C09": dict(
+        level="exploration",
+        jobs=jobs_c09,
+        rule="pacing workloads (random splits with rho in [0.05,0.95], extremal rho=0.95, zero keep_factor, DEFAULT, STOP_THE_WORLD; sleep_factor in {0,.5,1,2}; min_sleep in {0..256}; bursts 1..400; chains of survivors, all-garbage, weak shells) driven mostly by cycle_debt/mark_debt/collect_debt; M-pace: debt paid, completion bound A < rho*H/(1-rho) with explicit Known/Unknown cycle knowledge, stop-the-world, sleep rule; non-trivial = a bound / past-wake-up / stop-the-world check was actually evaluated",
+        floors={"pace_bound_checks": {Q: 20_000, T: 200_000}, "pace_sleep_checks_past_wakeup": 5_000, "pace_stw_checks": 1_000},
+        assumptions=COMMON_ASSUME + ["liveness ('cycles always complete') is decided in its bounded form only"],
+    ),
     "C10": dict(
         level="exploration",
         jobs=jobs_simple("C10", profile="metrics"),
@@ -134,11 +177,25 @@ CHECKS = {
         floors={"metrics_checks": 100_000},
         assumptions=COMMON_ASSUME,
     ),
+    "C11": dict(
+        level="fault_enumeration",
+        jobs=jobs_c11,
+        rule="for each seeded fault-free schedule (clean under all monitors) every collection call is re-run with an injected panic at every trace-event position (before / middle / after each traced object incl. the root), with repeated faults, every callback of every kind with a panic at every body position, Arena::new / try_new / map_root / try_map_root failing; plus random histories with faults (reported only if the fault-free twin is clean); oracles = C01-C05 monitors on the continued history; non-trivial = an injected panic was actually caught",
+        floors={"injected_panics_caught": {Q: 20_000, T: 200_000}, "fault_positions": 10_000},
+        assumptions=COMMON_ASSUME + ["slice-builder constructor panics are enumerated by layoutmon (C18 job reporting under C11)"],
+    ),
     "C14": dict(
         level="exploration",
         jobs=jobs_simple("C14", profile="roots"),
         rule="dynamic-root-heavy random histories (stash/clone/drop/fetch, slot reuse, handles outliving the arena); non-trivial = stash plus fetch or handle drop",
         floors={"stash_.*": 5_000},
         assumptions=COMMON_ASSUME,
+    ),
+    "C20": dict(
+        level="exploration",
+        jobs=jobs_c20,
+        rule="2-3 arenas with different pacing, random interleavings incl. dropping one arena while another is mid-cycle and presenting foreign handles; M-frame: (phase, count, debt bits, destructor count, live blocks) of every other arena unchanged by each op; projection oracle: each arena's observable trace is bit-identical to the same ops replayed on a lone arena; base-property events count only if the lone twin is clean; non-trivial = at least five frame checks",
+        floors={"frame_checks": 100_000, "projections_compared": 10_000},
+        assumptions=COMMON_ASSUME + ["gc-arena is deterministic given the op list (payloads avoid randomly seeded hashers)"],
     ),
 }
